@@ -226,8 +226,67 @@ func TestC09_Format(t *testing.T) {
 		caseC09Format)
 }
 
+// drawNestedTemplateSource writes a configuration by hand whose templates nest: a quoted
+// template with sequences of its own stands inside a sequence of a heredoc (or of another
+// quoted template) and is followed, inside that outer sequence, by operators and keywords
+// that are kept apart by spaces only.
+func drawNestedTemplateSource(t *rapid.T) string {
+	q := func() string {
+		return rapid.SampledFrom([]string{`"${u}"`, `"x${u}y"`, `"%{ if c }t%{ endif }"`, `"${"${u}"}"`, `"${u}${v}"`, `"a"`, `"${ u }-%{ for x in l }${x}%{ endfor }"`}).Draw(t, "quoted")
+	}
+	id := func() string {
+		return rapid.SampledFrom([]string{"u", "v", "total", "used", "k", "skip"}).Draw(t, "ident")
+	}
+	gap := func() string { return rapid.SampledFrom([]string{" ", " ", "  ", "\t", ""}).Draw(t, "gap") }
+	_ = gap
+	sp := func() string { return rapid.SampledFrom([]string{" ", "  ", "   "}).Draw(t, "sp") }
+	seq := func() string {
+		switch rapid.IntRange(0, 5).Draw(t, "seqkind") {
+		case 0:
+			return "${" + sp() + q() + sp() + "==" + sp() + id() + sp() + "?" + sp() + id() + sp() + "-" + sp() + id() + sp() + ":" + sp() + id() + sp() + "}"
+		case 1:
+			return "${" + sp() + "upper(" + q() + ")" + sp() + "!=" + sp() + id() + sp() + "||" + sp() + "!" + id() + sp() + "}"
+		case 2:
+			return "%{" + sp() + "for" + sp() + "k" + sp() + "in" + sp() + "[" + q() + "," + sp() + id() + "]" + sp() + "}${" + sp() + "k" + sp() + "}%{" + sp() + "endfor" + sp() + "}"
+		case 3:
+			return "%{" + sp() + "if" + sp() + q() + sp() + "!=" + sp() + id() + sp() + "&&" + sp() + id() + sp() + "}yes%{" + sp() + "else" + sp() + "}no%{" + sp() + "endif" + sp() + "}"
+		case 4:
+			return "${" + sp() + "[for" + sp() + "k" + sp() + "in" + sp() + "l" + sp() + ":" + sp() + q() + sp() + "if" + sp() + "k" + sp() + "!=" + sp() + id() + "]" + sp() + "}"
+		default:
+			return "${" + sp() + id() + sp() + "-" + sp() + id() + sp() + "}" + " ${" + q() + "}"
+		}
+	}
+	var sb strings.Builder
+	n := rapid.IntRange(1, 3).Draw(t, "nattrs")
+	for i := 0; i < n; i++ {
+		name := string(rune('a' + i))
+		switch rapid.IntRange(0, 2).Draw(t, "form") {
+		case 0:
+			fmt.Fprintf(&sb, "%s = <<EOT\n  line %s tail\n%s\nEOT\n", name, seq(), seq())
+		case 1:
+			fmt.Fprintf(&sb, "%s   =   <<-EOT\n    %s\n      %s %s\n    EOT\n", name, seq(), seq(), seq())
+		default:
+			fmt.Fprintf(&sb, "%s =   \"pre %s post %s\"\n", name, seq(), seq())
+		}
+	}
+	if rapid.Bool().Draw(t, "in_block") {
+		return "blk   \"l\"   {\n" + sb.String() + "}\n"
+	}
+	return sb.String()
+}
+
 func caseC09Format(c *hx.Case) {
 	t := c.T
+	if rapid.IntRange(0, 7).Draw(t, "nested_templates") == 0 {
+		src := drawNestedTemplateSource(t)
+		c.Set("source", src)
+		c.Class("family_nested_templates")
+		checkFormat(c, []byte(src), &hcl.EvalContext{Functions: ctyFuncs, Variables: map[string]cty.Value{
+			"u": cty.StringVal("U"), "v": cty.StringVal("V"), "total": cty.NumberIntVal(9), "used": cty.NumberIntVal(4), "k": cty.StringVal("K"),
+			"skip": cty.StringVal("s"), "c": cty.True, "l": cty.ListVal([]cty.Value{cty.StringVal("K"), cty.StringVal("s")}),
+		}})
+		return
+	}
 	sc := gen.DrawScope(t, gen.ScopeOpts{Nulls: 12})
 	tree := drawConfig(t, sc, 2, gen.ExprOpts{IllTyped: 10, HostileLits: true, Budget: 14, MaxDepth: 3})
 	bo := drawBodyOpts(t)
